@@ -117,12 +117,14 @@ fn costs_from(c: &Value) -> GasCosts {
     v.subi = ju64(c, "subi");
     v.jnzi = ju64(c, "jnzi");
     v.ret = ju64(c, "ret");
+    // the never-terminating program of the family spins on JI: its entry must not be free
+    v.ji = c.get("ji").map(|_| ju64(c, "ji")).unwrap_or(1).max(1);
     GasCosts::new(v.into())
 }
 /// the schedule entries the specification's program family depends on, READ from the implementation
 fn costs_json(g: &GasCosts) -> Value {
     json!({"noop": g.noop().to_string(), "movi": g.movi().to_string(), "subi": g.subi().to_string(),
-           "jnzi": g.jnzi().to_string(), "ret": g.ret().to_string()})
+           "jnzi": g.jnzi().to_string(), "ret": g.ret().to_string(), "ji": g.ji().to_string()})
 }
 
 // ------------------------------------------------------------------------------------------------
@@ -451,6 +453,7 @@ fn replay(o: &Opts) -> Res<()> {
     let mut mems = Mems { reused: MemoryInstance::new() };
     let (mut nb, mut steps, mut basic_rej, mut accepted, mut est_ok_n) = (0u64, 0u64, 0u64, 0u64, 0u64);
     let mut worlds: BTreeMap<String, World> = BTreeMap::new();
+    let mut mcount: BTreeMap<String, u64> = BTreeMap::new();
     for (ln, l) in lines.iter().enumerate() {
         nb += 1;
         let atx = &l["tx"];
@@ -463,11 +466,17 @@ fn replay(o: &Opts) -> Res<()> {
             let b = build_abstract(atx, rot, &w);
             let slots = slots_of(&order, &b.pred_idx);
             let memmode = ["fresh", "reused", "dirty"][rot % 3];
-            let threads = rot % 5 == 4;
+            let threads = rot % 64 == 63;
             let ctxv = json!({"line": ln, "rep": rep, "carriers": b.carriers.iter().map(|c| carrier_name(*c)).collect::<Vec<_>>(),
                               "mem": memmode, "threads": threads, "order": order, "tx": atx, "mode": l["mode"]});
             let mut mism = |what: &str, expected: Value, observed: Value, extra: Value| {
-                out.ev(json!({"mismatch": what, "expected": expected, "observed": observed, "detail": extra, "ctx": ctxv}));
+                // every mismatch is counted; the first few of each (kind, reason) are written out in full
+                let key = format!("{}|{}", what, extra.get("why").and_then(|x| x.as_str()).unwrap_or(""));
+                let c = mcount.entry(key).or_insert(0u64);
+                *c += 1;
+                if *c <= 4 {
+                    out.ev(json!({"mismatch": what, "expected": expected, "observed": observed, "detail": extra, "ctx": ctxv}));
+                }
             };
             macro_rules! host {
                 ($r:expr, $wh:expr) => {
@@ -541,7 +550,8 @@ fn replay(o: &Opts) -> Res<()> {
                         let mut c2 = b.ctx.clone();
                         apply_mut(&mut c2, &m, &w);
                         let t2 = c2.to_script();
-                        let (ok2, _) = host!(sig_tx(&t2, &w.chain), "check_signatures(tampered)");
+                        let chain2 = if m.at == "chain" { ChainId::new(1) } else { w.chain };
+                        let (ok2, _) = host!(sig_tx(&t2, &chain2), "check_signatures(tampered)");
                         steps += 1;
                         if ok2 {
                             mism("tamper", json!("F"), json!("T"), json!(m.describe()));
@@ -602,7 +612,7 @@ fn replay(o: &Opts) -> Res<()> {
             }
         }
     }
-    out.ev(json!({"summary": {"behaviours": nb, "reps": reps, "steps": steps, "basic_rejected": basic_rej, "accepted": accepted, "estimates_ok": est_ok_n}}));
+    out.ev(json!({"summary": {"behaviours": nb, "reps": reps, "steps": steps, "basic_rejected": basic_rej, "accepted": accepted, "estimates_ok": est_ok_n, "mismatch_counts": mcount}}));
     out.finish();
     Ok(())
 }
@@ -919,12 +929,14 @@ fn record(o: &Opts) -> Res<()> {
             2 => json!({"noop": rng.gen_range(0..9u64), "movi": rng.gen_range(0..9u64), "subi": rng.gen_range(0..40u64), "jnzi": rng.gen_range(0..9u64), "ret": rng.gen_range(0..70u64)}),
             _ => json!({"noop": 1, "movi": 2, "subi": 3, "jnzi": 4, "ret": 5}),
         };
-        let cap: Word = *[100_000_000u64, 1_000_000, 5_000].choose(&mut rng).unwrap();
+        let cap_pick: Word = *[100_000_000u64, 1_000_000, 5_000].choose(&mut rng).unwrap();
         let chain = *[0u64, 1, 9889, u64::MAX].choose(&mut rng).unwrap();
-        let w = world(&sched, cap, chain);
         let part = parts[n % parts.len()].as_str();
-        // "good" transactions are authorised by construction (used for mutation and estimation round trips)
+        // "good" transactions are authorised by construction (used for mutation and estimation round trips);
+        // their estimation cap is ample so that every predicate can be shown to return one
         let good = part == "mutate" || rng.gen_bool(0.45);
+        let cap: Word = if good { 100_000_000 } else { cap_pick };
+        let w = world(&sched, cap, chain);
         let nin = rng.gen_range(1..=6usize);
         let nwit = rng.gen_range(0..=3usize);
         let mut wits: Vec<WitD> = (0..nwit)
@@ -987,7 +999,7 @@ fn record(o: &Opts) -> Res<()> {
                 };
                 // declared gas: the estimate of this program run alone (a suggestion, the specification
                 // decides), perturbed unless the transaction is to be authorised by construction
-                let est = est.or_else(|| measure(&code, &w).map(|x| x.1)).unwrap_or(0);
+                let est = if prog["tail"].as_str().map(|t| t != "ret1").unwrap_or(false) { rng.gen_range(0..200) } else { est.or_else(|| measure(&code, &w).map(|x| x.1)).unwrap_or(0) };
                 let gas = if good { est } else {
                     match rng.gen_range(0..10) {
                         0 => est.wrapping_add(1),
